@@ -8,7 +8,7 @@ import Summer.Proofs.AggregateTraj
 C03 — stratifying without adjustments does not change the aggregate dynamics.
 
 Model: `Build.stratifyFlow` / `stratifyComps` / `stratifyWith`, `Run.realised`, `Run.flowRates`,
-`Run.compRates`.  Specification: `Summer/Spec/Aggregate.lean` (`Spec.agg`, `Spec.copies`, `Spec.copy`,
+`Run.compRates`.  Specification: `Summer/Spec/Aggregate.lean` (`Spec.agg`, `Spec.copiesA`, `Spec.copy`,
 `Spec.rateLaw`, `Spec.weightVal`).
 
 Everything is stated for an arbitrary ordered field, so the number `n` of strata is invertible as
@@ -27,11 +27,11 @@ private theorem n_ne_zero (s : Strat α) (h : s.strata ≠ []) : (s.strata.lengt
     intro e; exact h (List.length_eq_zero_iff.1 e)
   exact_mod_cast this
 
-/-! ## 0. the copies: what `stratifyFlow` produces for an unadjusted stratification -/
+/-! ## 0. the copiesA: what `stratifyFlow` produces for an unadjusted stratification -/
 
-/-- With no flow adjustments `stratifyFlow` never fails and returns the documented copies. -/
+/-- With no flow adjustments `stratifyFlow` never fails and returns the documented copiesA. -/
 theorem stratifyFlow_copies (s : Strat α) (f : Flow α) (hun : s.flowAdj = []) :
-    stratifyFlow f s = .ok (Spec.copies s f) :=
+    stratifyFlow f s = .ok (Spec.copiesA s f) :=
   stratifyFlow_unadj s f hun
 
 /-- the ends, kind, name and rate parameter of a copy (`Spec.copy`), for reference -/
@@ -43,31 +43,31 @@ theorem copy_fields (f : Flow α) (s : Strat α) (srcS dstS : Bool) (extra : Lis
     (Spec.copy f s srcS dstS extra st).dst = (if dstS then f.dst.map (·.stratify s.name st) else f.dst) :=
   ⟨rfl, rfl, rfl, rfl, rfl, rfl⟩
 
-/-! ## 1. `weights_sum`: the realised weights of the copies, class by class
+/-! ## 1. `weights_sum`: the realised weights of the copiesA, class by class
 
 `w` is the value of the parent's realised weight in the environment `env`. -/
 
 /-- Entry flows (crude birth, replacement birth, import) into a stratified destination, except births
-under an age stratification: `n` copies, one per stratum, into the children of the destination, each
+under an age stratification: `n` copiesA, one per stratum, into the children of the destination, each
 of weight `w/n`; the weights add up to `w`. -/
 theorem weights_entry (s : Strat α) (f : Flow α) (env : Env α) (w : α) (hun : s.flowAdj = [])
     (hk : isEntryKind f.kind = true) (hd : endStratified f.dst s = true)
     (hnb : ¬ (isBirthKind f.kind = true ∧ s.kind = .age)) (hne : s.strata ≠ [])
     (hw : (realised f).eval env = some w) :
     let n := s.strata.length
-    let cp := Spec.copy f s false true [Spec.share n]
+    let cp := Spec.copy f s false true [Spec.shareA n]
     stratifyFlow f s = .ok (s.strata.map cp) ∧ (s.strata.map cp).length = n ∧
       (∀ st, (cp st).src = f.src ∧ (cp st).dst = f.dst.map (·.stratify s.name st)) ∧
       (∀ st, (realised (cp st)).eval env = some (w * (1 / (n : α)))) ∧
       sumL ((s.strata.map cp).map (weightVal env)) = w := by
   intro n cp
-  have hcop : Spec.copies s f = s.strata.map cp := by
+  have hcop : Spec.copiesA s f = s.strata.map cp := by
     have hb : (isBirthKind f.kind && s.kind == .age) = false := by
       rw [Bool.and_eq_false_iff]
       by_cases h1 : isBirthKind f.kind = true
       · right; simpa using fun e => hnb ⟨h1, e⟩
       · left; simpa using h1
-    simp only [Spec.copies, hk, hd, hb, if_true, Bool.not_true, Bool.false_eq_true, if_false]
+    simp only [Spec.copiesA, hk, hd, hb, if_true, Bool.not_true, Bool.false_eq_true, if_false]
     rfl
   refine ⟨by rw [stratifyFlow_unadj s f hun, hcop], by simp [n], fun st => ⟨rfl, rfl⟩,
     fun st => eval_copy_share env f s _ _ _ st w hw, ?_⟩
@@ -84,13 +84,13 @@ theorem weights_birth_age (s : Strat α) (f : Flow α) (env : Env α) (w : α) (
   intro cp
   have hk' : isEntryKind f.kind = true := by
     cases hkk : f.kind <;> simp [hkk, isBirthKind] at hk <;> rfl
-  have hcop : Spec.copies s f = [cp] := by
-    simp only [Spec.copies, hk', hd, hk, hage, if_true, Bool.not_true, Bool.false_eq_true, if_false,
+  have hcop : Spec.copiesA s f = [cp] := by
+    simp only [Spec.copiesA, hk', hd, hk, hage, if_true, Bool.not_true, Bool.false_eq_true, if_false,
       BEq.rfl, Bool.and_self, filter_zero_of_nodup _ hnd h0, List.map_cons, List.map_nil]
     rfl
   exact ⟨by rw [stratifyFlow_unadj s f hun, hcop], rfl, rfl, by rw [eval_copy_nil]; exact hw⟩
 
-/-- Exit flows (deaths) from a stratified source: `n` copies, one per stratum, out of the children of
+/-- Exit flows (deaths) from a stratified source: `n` copiesA, one per stratum, out of the children of
 the source, each of the parent's weight `w`. -/
 theorem weights_exit (s : Strat α) (f : Flow α) (env : Env α) (w : α) (hun : s.flowAdj = [])
     (hk : isDeath f.kind = true) (hsrc : endStratified f.src s = true)
@@ -102,8 +102,8 @@ theorem weights_exit (s : Strat α) (f : Flow α) (env : Env α) (w : α) (hun :
   intro cp
   have hk' : isEntryKind f.kind = false := by
     cases hkk : f.kind <;> simp [hkk, isDeath] at hk <;> rfl
-  have hcop : Spec.copies s f = s.strata.map cp := by
-    simp only [Spec.copies, hk', hk, hsrc, if_true, Bool.not_true, Bool.false_eq_true, if_false]
+  have hcop : Spec.copiesA s f = s.strata.map cp := by
+    simp only [Spec.copiesA, hk', hk, hsrc, if_true, Bool.not_true, Bool.false_eq_true, if_false]
     rfl
   exact ⟨by rw [stratifyFlow_unadj s f hun, hcop], by simp, fun st => ⟨rfl, rfl⟩,
     fun st => by rw [eval_copy_nil]; exact hw⟩
@@ -113,7 +113,7 @@ def isTransLike : FlowKind → Bool
   | .transition => true | .infFreq => true | .infDens => true | _ => false
 
 /-- Transition / infection flows with a stratified source (destination stratified or not; ANY kind of
-stratification, strain included): `n` copies, one per stratum, each of the parent's weight `w`. -/
+stratification, strain included): `n` copiesA, one per stratum, each of the parent's weight `w`. -/
 theorem weights_transition_src (s : Strat α) (f : Flow α) (env : Env α) (w : α) (hun : s.flowAdj = [])
     (hk : isTransLike f.kind = true) (hsrc : endStratified f.src s = true)
     (hw : (realised f).eval env = some w) :
@@ -124,30 +124,30 @@ theorem weights_transition_src (s : Strat α) (f : Flow α) (env : Env α) (w : 
         (cp st).dst = if dstS then f.dst.map (·.stratify s.name st) else f.dst) ∧
       (∀ st, (realised (cp st)).eval env = some w) := by
   intro dstS cp
-  have hcop : Spec.copies s f = s.strata.map cp := by
+  have hcop : Spec.copiesA s f = s.strata.map cp := by
     cases hkk : f.kind <;> simp [hkk, isTransLike] at hk <;>
-      simp [Spec.copies, hkk, isEntryKind, isDeath, hsrc, cp, dstS]
+      simp [Spec.copiesA, hkk, isEntryKind, isDeath, hsrc, cp, dstS]
   exact ⟨by rw [stratifyFlow_unadj s f hun, hcop], by simp, fun st => ⟨rfl, rfl⟩,
     fun st => by rw [eval_copy_nil]; exact hw⟩
 
 /-- Transition / infection flows with only the destination stratified, under a NON-strain
-stratification: `n` copies from the same source into the children of the destination, each of weight
+stratification: `n` copiesA from the same source into the children of the destination, each of weight
 `w/n`; the weights add up to `w`. -/
 theorem weights_transition_dst (s : Strat α) (f : Flow α) (env : Env α) (w : α) (hun : s.flowAdj = [])
     (hk : isTransLike f.kind = true) (hsrc : endStratified f.src s = false)
     (hdst : endStratified f.dst s = true) (hstrain : s.kind ≠ .strain) (hne : s.strata ≠ [])
     (hw : (realised f).eval env = some w) :
     let n := s.strata.length
-    let cp := Spec.copy f s false true [Spec.share n]
+    let cp := Spec.copy f s false true [Spec.shareA n]
     stratifyFlow f s = .ok (s.strata.map cp) ∧ (s.strata.map cp).length = n ∧
       (∀ st, (cp st).src = f.src ∧ (cp st).dst = f.dst.map (·.stratify s.name st)) ∧
       (∀ st, (realised (cp st)).eval env = some (w * (1 / (n : α)))) ∧
       sumL ((s.strata.map cp).map (weightVal env)) = w := by
   intro n cp
   have hs' : (s.kind == StratKind.strain) = false := by simpa using hstrain
-  have hcop : Spec.copies s f = s.strata.map cp := by
+  have hcop : Spec.copiesA s f = s.strata.map cp := by
     cases hkk : f.kind <;> simp [hkk, isTransLike] at hk <;>
-      simp [Spec.copies, hkk, isEntryKind, isDeath, hsrc, hdst, hs', cp, n]
+      simp [Spec.copiesA, hkk, isEntryKind, isDeath, hsrc, hdst, hs', cp, n]
   refine ⟨by rw [stratifyFlow_unadj s f hun, hcop], by simp [n], fun st => ⟨rfl, rfl⟩,
     fun st => eval_copy_share env f s _ _ _ st w hw, ?_⟩
   rw [wsum_share env f s _ _ (n_ne_zero s hne), weightVal_of_eval env f w hw]
@@ -158,9 +158,9 @@ theorem weights_transition_none (s : Strat α) (f : Flow α) (hun : s.flowAdj = 
     (hsrc : endStratified f.src s = false) (hdst : endStratified f.dst s = false) :
     stratifyFlow f s = .ok [f] := by
   rw [stratifyFlow_unadj s f hun]
-  simp [Spec.copies, hk, hk2, hsrc, hdst]
+  simp [Spec.copiesA, hk, hk2, hsrc, hdst]
 
-/-- Absolute flows with at least one stratified end (any kind of stratification): `n` copies with
+/-- Absolute flows with at least one stratified end (any kind of stratification): `n` copiesA with
 the stratified ends replaced by their children, each of weight `w/n` (shared exactly once, also when
 only the destination is stratified); the weights add up to `w`. -/
 theorem weights_absolute (s : Strat α) (f : Flow α) (env : Env α) (w : α) (hun : s.flowAdj = [])
@@ -169,23 +169,23 @@ theorem weights_absolute (s : Strat α) (f : Flow α) (env : Env α) (w : α) (h
     let n := s.strata.length
     let srcS := endStratified f.src s
     let dstS := endStratified f.dst s
-    ∃ extra : List (Adj α), (extra = [] ∨ extra = [Spec.share n]) ∧
+    ∃ extra : List (Adj α), (extra = [] ∨ extra = [Spec.shareA n]) ∧
       stratifyFlow f s = .ok (s.strata.map (Spec.copy f s srcS dstS extra)) ∧
       (∀ st, (realised (Spec.copy f s srcS dstS extra st)).eval env = some (w * (1 / (n : α)))) ∧
       sumL ((s.strata.map (Spec.copy f s srcS dstS extra)).map (weightVal env)) = w := by
   intro n srcS dstS
   have hn := n_ne_zero s hne
   by_cases hc : (dstS && !srcS && !(s.kind == .strain)) = true
-  · refine ⟨[Spec.share n], Or.inr rfl, ?_, fun st => eval_copy_share env f s _ _ _ st w hw, ?_⟩
+  · refine ⟨[Spec.shareA n], Or.inr rfl, ?_, fun st => eval_copy_share env f s _ _ _ st w hw, ?_⟩
     · rw [stratifyFlow_unadj s f hun]
-      simp only [Spec.copies, hk, isEntryKind, isDeath, hends, Bool.not_true, Bool.false_eq_true, if_false]
+      simp only [Spec.copiesA, hk, isEntryKind, isDeath, hends, Bool.not_true, Bool.false_eq_true, if_false]
       simp only [dstS, srcS] at hc
       simp only [hc, if_true]; rfl
     · exact wsum_share env f s _ _ hn |>.trans (weightVal_of_eval env f w hw)
   · by_cases h1 : 1 < n
-    · refine ⟨[Spec.share n], Or.inr rfl, ?_, fun st => eval_copy_share env f s _ _ _ st w hw, ?_⟩
+    · refine ⟨[Spec.shareA n], Or.inr rfl, ?_, fun st => eval_copy_share env f s _ _ _ st w hw, ?_⟩
       · rw [stratifyFlow_unadj s f hun]
-        simp only [Spec.copies, hk, isEntryKind, isDeath, hends, Bool.not_true, Bool.false_eq_true, if_false]
+        simp only [Spec.copiesA, hk, isEntryKind, isDeath, hends, Bool.not_true, Bool.false_eq_true, if_false]
         simp only [dstS, srcS] at hc
         simp only [hc, Bool.false_eq_true, if_false]
         have : decide (1 < s.strata.length) = true := by simpa [n] using h1
@@ -194,8 +194,8 @@ theorem weights_absolute (s : Strat α) (f : Flow α) (env : Env α) (w : α) (h
     · have hn1 : n = 1 := by
         have : n ≠ 0 := by intro e; apply hne; exact List.length_eq_zero_iff.1 e
         omega
-      have hcop : Spec.copies s f = s.strata.map (Spec.copy f s srcS dstS []) := by
-        simp only [Spec.copies, hk, isEntryKind, isDeath, hends, Bool.not_true, Bool.false_eq_true, if_false]
+      have hcop : Spec.copiesA s f = s.strata.map (Spec.copy f s srcS dstS []) := by
+        simp only [Spec.copiesA, hk, isEntryKind, isDeath, hends, Bool.not_true, Bool.false_eq_true, if_false]
         simp only [dstS, srcS] at hc
         simp only [hc, Bool.false_eq_true, if_false]
         have : decide (1 < s.strata.length) = false := by simpa [n] using h1
@@ -209,7 +209,7 @@ theorem weights_absolute (s : Strat α) (f : Flow α) (env : Env α) (w : α) (h
         have : s.strata.length = 1 := hn1
         rw [this]; simp
 
-/-! ## 2. `copies_rate_sum`: the copies' rates add up to the parent's rate at the aggregated state -/
+/-! ## 2. `copies_rate_sum`: the copiesA' rates add up to the parent's rate at the aggregated state -/
 
 /-- Aggregation preserves the total population. -/
 theorem agg_total (comps : List Comp) (s : Strat α) (x' : List α)
@@ -230,7 +230,7 @@ theorem agg_entry (comps : List Comp) (s : Strat α) (hfresh : freshFor comps s 
   popOf_agg ⟨hfresh, hnd, hst⟩ x' hx c hc
 
 /-- **copies_rate_sum.**  For every flow `f` whose source (if any) is a compartment of the model and
-every unadjusted non-strain stratification, the rates of the copies of `f` under the documented
+every unadjusted non-strain stratification, the rates of the copiesA of `f` under the documented
 per-flow law (`Spec.rateLaw`: population-proportional `w'·x'[src']`, crude birth `w'·Σx'`,
 import/absolute `w'`, replacement birth `w'·deaths`), evaluated at a stratified state `x'`, add up to
 the rate of `f` at the aggregated state `agg x'`.  (For infection flows `rateLaw` is the rate before the
@@ -241,7 +241,7 @@ theorem copies_rate_sum (comps : List Comp) (s : Strat α) (hfresh : freshFor co
     (hage : s.kind = .age → "0" ∈ s.strata)
     (x' : List α) (hx : x'.length = (stratifyComps comps s).length)
     (f : Flow α) (hsrc : ∀ c, f.src = some c → c ∈ comps) (deaths : α) (env : Env α) :
-    sumL ((Spec.copies s f).map (fun g => Spec.rateLaw (stratifyComps comps s) x' deaths (weightVal env g) g))
+    sumL ((Spec.copiesA s f).map (fun g => Spec.rateLaw (stratifyComps comps s) x' deaths (weightVal env g) g))
       = Spec.rateLaw comps (Spec.agg comps s x') deaths (weightVal env f) f :=
   Proofs.copies_rate_sum ⟨hfresh, hnd, hst⟩ (n_ne_zero s hne) hstrain hage x' hx f hsrc deaths env
 
@@ -307,7 +307,7 @@ theorem rates_agg_partial (m m' : Model α) (s : Strat α) (b b' : Backend)
       mults.getD (infPos m i) 1 = M m.flows[i])
     (hM' : ∀ i (hi : i < m'.flows.length), isInfection m'.flows[i].kind = true →
       mults'.getD (infPos m' i) 1 = M' m'.flows[i])
-    (hMM : ∀ f ∈ m.flows, isInfection f.kind = true → ∀ g ∈ Spec.copies s f, M' g = M f) :
+    (hMM : ∀ f ∈ m.flows, isInfection f.kind = true → ∀ g ∈ Spec.copiesA s f, M' g = M f) :
     Spec.agg m.comps s (compRates b' (flowRates b' w' x' mults'))
       = compRates b (flowRates b w (Spec.agg m.comps s x') mults) := by
   rw [mapM_eval_eq_map env _ _ hw, mapM_eval_eq_map env _ _ hw']
@@ -344,12 +344,12 @@ theorem rhs_agg_partial_single_category (m m' : Model α) (s : Strat α) (b b' :
     params t x' hx hnn r r' hr' hr
 
 /-- the shape of the stratified model used above: the compartments are `stratifyComps`, the flows are
-the copies of the parent flows in order, followed (age stratification only) by ageing flows, each a
+the copiesA of the parent flows in order, followed (age stratification only) by ageing flows, each a
 transition between two children of one parent compartment -/
 theorem stratified_model_shape (m m' : Model α) (s : Strat α) (hsw : stratifyWith m s = .ok m')
     (hfa : s.flowAdj = []) (hmix : s.mixing = none) (hstrain : s.kind ≠ .strain)
     (hfresh : freshFor m.comps s = true) :
-    m'.comps = stratifyComps m.comps s ∧ ∃ extra, m'.flows = m.flows.flatMap (Spec.copies s) ++ extra ∧
+    m'.comps = stratifyComps m.comps s ∧ ∃ extra, m'.flows = m.flows.flatMap (Spec.copiesA s) ++ extra ∧
       (∀ g ∈ extra, g.kind = .transition ∧ ∃ c0 ∈ m.comps, ∃ a b,
         g.src = some (c0.stratify s.name a) ∧ g.dst = some (c0.stratify s.name b)) ∧
       (s.kind ≠ .age → extra = []) :=
@@ -361,7 +361,7 @@ theorem stratified_model_shape (m m' : Model α) (s : Strat α) (hsw : stratifyW
 theorem rates_agg_of_shape_partial_no_infection (m m' : Model α) (s : Strat α) (b b' : Backend)
     (extra : List (Flow α))
     (hcomps : m'.comps = stratifyComps m.comps s)
-    (hflows : m'.flows = m.flows.flatMap (Spec.copies s) ++ extra)
+    (hflows : m'.flows = m.flows.flatMap (Spec.copiesA s) ++ extra)
     (hextra : ∀ g ∈ extra, g.kind = .transition ∧ ∃ c0 ∈ m.comps, ∃ a b,
         g.src = some (c0.stratify s.name a) ∧ g.dst = some (c0.stratify s.name b))
     (hb : prepare m = .ok b) (hb' : prepare m' = .ok b')
@@ -466,7 +466,7 @@ theorem split_values (comps : List Comp) (s : Strat α) (hst : s.strata.Nodup) (
 /-! ## 5. strain stratifications: the forces of infection add up -/
 
 /-- Transition / infection flows with only the destination stratified under a STRAIN stratification:
-`n` copies into the children of the destination, each of the parent's full weight `w` (no `1/n`:
+`n` copiesA into the children of the destination, each of the parent's full weight `w` (no `1/n`:
 the split between the strains is made by the force of infection). -/
 theorem weights_transition_dst_strain (s : Strat α) (f : Flow α) (env : Env α) (w : α) (hun : s.flowAdj = [])
     (hk : isTransLike f.kind = true) (hsrc : endStratified f.src s = false)
@@ -477,9 +477,9 @@ theorem weights_transition_dst_strain (s : Strat α) (f : Flow α) (env : Env α
       (∀ st, (cp st).src = f.src ∧ (cp st).dst = f.dst.map (·.stratify s.name st)) ∧
       (∀ st, (realised (cp st)).eval env = some w) := by
   intro cp
-  have hcop : Spec.copies s f = s.strata.map cp := by
+  have hcop : Spec.copiesA s f = s.strata.map cp := by
     cases hkk : f.kind <;> simp [hkk, isTransLike] at hk <;>
-      simp [Spec.copies, hkk, isEntryKind, isDeath, hsrc, hdst, hstrain, cp]
+      simp [Spec.copiesA, hkk, isEntryKind, isDeath, hsrc, hdst, hstrain, cp]
   exact ⟨by rw [stratifyFlow_unadj s f hun, hcop], by simp, fun st => ⟨rfl, rfl⟩,
     fun st => by rw [eval_copy_nil]; exact hw⟩
 
@@ -514,7 +514,7 @@ theorem strain_infected_sum {κ : Type} (strains : List κ) (iv inf : κ → Lis
       = (ci0.map (fun row => sumL (gather (vmul iv0 inf0) row))).getD c 0 :=
   infPops_sum strains iv inf iv0 inf0 ci0 hinf c hc
 
-/-- Consequently the rates of the `n` per-strain copies of an infection flow (each of weight `w`, from
+/-- Consequently the rates of the `n` per-strain copiesA of an infection flow (each of weight `w`, from
 the same source `xS`) add up to the unstratified infection rate. -/
 theorem strain_infection_rate_sum {κ : Type} (strains : List κ) (foi : κ → α) (foi0 w xS : α)
     (h : sumL (strains.map foi) = foi0) :
@@ -573,8 +573,8 @@ example := weights_absolute locStrat fWaning env0 3 rfl rfl (by decide) (by deci
 example := weights_absolute locStrat fAbs2 env0 7 rfl rfl (by decide) (by decide) (by decide +kernel)
 example := weights_absolute locStrat fAbs3 env0 11 rfl rfl (by decide) (by decide) (by decide +kernel)
 
-/-- the copies of the absolute flow R → S (destination only stratified): shared once, 3 × (3 · 1/3) -/
-example : (Spec.copies locStrat fWaning).map (fun g => (g.src, g.dst, (realised g).eval env0)) =
+/-- the copiesA of the absolute flow R → S (destination only stratified): shared once, 3 × (3 · 1/3) -/
+example : (Spec.copiesA locStrat fWaning).map (fun g => (g.src, g.dst, (realised g).eval env0)) =
     [(some cR, some ⟨"S", [("loc", "urban")]⟩, some 1), (some cR, some ⟨"S", [("loc", "rural")]⟩, some 1),
      (some cR, some ⟨"S", [("loc", "remote")]⟩, some 1)] := by decide +kernel
 
@@ -582,7 +582,7 @@ example : (Spec.copies locStrat fWaning).map (fun g => (g.src, g.dst, (realised 
 def x0 : List Rat := [90, 10, 20, 5, 6, 7, 30]
 example := copies_rate_sum exModel.comps locStrat (by decide) (by decide) (by decide) (by decide) (by decide) (by decide)
   x0 (by decide) fRecovery (by decide) 0 env0
-example : (Spec.copies locStrat fRecovery).map (fun g => Spec.rateLaw (stratifyComps exModel.comps locStrat) x0 0 (weightVal env0 g) g)
+example : (Spec.copiesA locStrat fRecovery).map (fun g => Spec.rateLaw (stratifyComps exModel.comps locStrat) x0 0 (weightVal env0 g) g)
     = [5/2, 3, 7/2] ∧ Spec.rateLaw exModel.comps (Spec.agg exModel.comps locStrat x0) 0 (weightVal env0 fRecovery) fRecovery = 9 := by
   decide +kernel
 
@@ -616,7 +616,7 @@ example : Spec.agg exModel.comps locStrat ((rhs locModel locB env0.params x0 3).
     (by decide) (by decide) (by decide) (by decide) (by decide) (by decide) (by decide) (by decide)
     (by decide) env0.params 3 x0 (by decide) (by decide) _ _ (by decide +kernel) (by decide +kernel)
 
-/-- the age-stratified model, written out: 9 compartments, the copies, and 6 ageing flows -/
+/-- the age-stratified model, written out: 9 compartments, the copiesA, and 6 ageing flows -/
 def ageingFlow (c : Comp) (a b : String) (rate : Rat) : Flow Rat :=
   { kind := .transition,
     name := "ageing_" ++ (c.stratify "age" a).serialize ++ "_to_" ++ (c.stratify "age" b).serialize,
@@ -626,7 +626,7 @@ def ageExtra : List (Flow Rat) :=
    ageingFlow cS "5" "15" (1/10), ageingFlow cI "5" "15" (1/10), ageingFlow cR "5" "15" (1/10)]
 def ageModel : Model Rat :=
   { exModel with comps := stratifyComps exModel.comps ageStrat,
-                 flows := exModel.flows.flatMap (Spec.copies ageStrat) ++ ageExtra,
+                 flows := exModel.flows.flatMap (Spec.copiesA ageStrat) ++ ageExtra,
                  strats := [ageStrat], actions := [.stratify "age"] }
 def ageB : Backend := getOk noBackend (prepare ageModel)
 def x1 : List Rat := [90, 10, 20, 5, 6, 7, 30, 1, 2]
@@ -757,7 +757,7 @@ example : (Solvers.euler (field sirLoc sirLocB []) xl timesE).map (Spec.agg sirM
 /-! ### two hypotheses that cannot be dropped (both are accepted by the Python constructors) -/
 
 /-- (1) duplicate strata names: `Stratification("loc", ["a", "a"], ["I"])` is accepted (no uniqueness check
-in `Stratification.__init__`); the stratified model has the compartment `I_a` twice, both copies of the
+in `Stratification.__init__`); the stratified model has the compartment `I_a` twice, both copiesA of the
 recovery flow read the same one, and the aggregate is wrong: `hst : s.strata.Nodup` is needed. -/
 def dupStrat : Strat Rat :=
   { kind := .plain, name := "loc", strata := ["a", "a"], comps := ["I"],
